@@ -4,7 +4,7 @@
     and complete for the declarative language of the family (Spec/RegexLang.v); that the
     regex crate computes the same matches on this family is what the correspondence run checks. *)
 From TucModel Require Import Base.Bytes Base.ListX Model.Bounds Model.Scan Model.Regex Model.Opt Model.CutStr
-     Spec.RegexLang Proofs.C06 Proofs.ScanSplit Proofs.C12 Proofs.C16 Proofs.C16Sem.
+     Spec.RegexLang Spec.Fields Proofs.C06 Proofs.ScanSplit Proofs.C12 Proofs.C16 Proofs.C16Sem Proofs.C16Replace.
 
 (** the engine against the language of the family: what it reports at the head of a text is
     a word of the language, and it reports nothing only when no prefix of the text is one *)
@@ -54,7 +54,32 @@ Theorem C16_no_index_out_of_range :
     out_loop o line (fields_of_matches ms line) bs <> RPanic.
 Proof. exact out_loop_no_panic. Qed.
 
+(** -r R prints the literal text R - never an expansion of it - wherever a delimiter is replaced:
+    for the matches of any engine, replacing them is joining the gaps between them with R *)
+Theorem C16_replacement_is_the_literal_text :
+  forall (line rep : bytes) (ms : list mtch),
+    replace_matches line ms rep = intercalate rep (pieces line (gaps_from 0 ms (length line))).
+Proof. exact replace_matches_is_intercalate. Qed.
+
+(** ... so a selected text is printed as its fields joined by R ... *)
+Theorem C16_selected_text_is_rejoined_with_R :
+  forall (o : opt) (x : rx) (nd text : bytes) (ms : list mtch),
+    o_btype o <> BChars -> o_replace o = Some nd -> o_regex o = Some x -> o_compress o = false ->
+    rx_normal x text = Some ms ->
+    maybe_replace o text = Some (intercalate nd (pieces text (gaps_from 0 ms (length text)))).
+Proof. exact maybe_replace_regex_is_intercalate. Qed.
+
+(** ... and after -p, which has already rewritten every run of matches to R, it is printed as it is
+    (an R that itself matches RE is not expanded a second time) *)
+Theorem C16_after_compress_the_text_is_printed_as_it_is :
+  forall (o : opt) (x : rx) (nd text : bytes),
+    o_replace o = Some nd -> o_regex o = Some x -> o_compress o = true -> maybe_replace o text = Some text.
+Proof. exact maybe_replace_after_compress. Qed.
+
 Print Assumptions C16_matches_are_well_formed.
+Print Assumptions C16_replacement_is_the_literal_text.
+Print Assumptions C16_selected_text_is_rejoined_with_R.
+Print Assumptions C16_after_compress_the_text_is_printed_as_it_is.
 Print Assumptions C16_fields_and_matches_tile_the_record.
 Print Assumptions C16_greedy_fields_tile_the_record.
 Print Assumptions C16_tiling_for_any_matcher.
